@@ -153,6 +153,7 @@ class Evaluator:
         self.inlined: List[str] = []
         self.unknown_calls: Dict[str, int] = {}
         self.extern = extern or {}
+        self.attr_alias: Dict[str, str] = {}   # self.<field> -> expression text it is an alias of
         self.effect_calls: set = set()   # short names of calls recorded as effects (effects mode)
         self.effects_mode = False
 
@@ -368,6 +369,11 @@ class Evaluator:
                 e2 = dict(env)
                 e2[name] = v
                 return [(conds, e2, None)]
+            swap = self._swap_idiom(st, env, ctx)
+            if swap is not None:
+                e2 = dict(env)
+                e2.update(swap)
+                return [(conds, e2, None)]
             out = []
             for c2, cv in self.cond_alts(st.test, env, ctx):
                 for truth, cc in cv:
@@ -421,6 +427,32 @@ class Evaluator:
             return None
         kind = "min" if isinstance(t.ops[0], (ast.Gt, ast.GtE)) else "max"
         return a.targets[0].id, minmax(kind, [x, y])
+
+    def _swap_idiom(self, st: ast.If, env, ctx):
+        """`if a > b: (a, b) = (b, a)` -> a = min(a, b), b = max(a, b) (and the `<` mirror)."""
+        if st.orelse or len(st.body) != 1 or not isinstance(st.body[0], ast.Assign):
+            return None
+        a = st.body[0]
+        t = st.test
+        if not (isinstance(a.targets[0], ast.Tuple) and isinstance(a.value, ast.Tuple) and len(a.targets[0].elts) == 2
+                and len(a.value.elts) == 2 and all(isinstance(e, ast.Name) for e in a.targets[0].elts + a.value.elts)):
+            return None
+        x, y = a.targets[0].elts[0].id, a.targets[0].elts[1].id
+        if [e.id for e in a.value.elts] != [y, x]:
+            return None
+        if not (isinstance(t, ast.Compare) and len(t.ops) == 1 and isinstance(t.left, ast.Name)
+                and isinstance(t.comparators[0], ast.Name) and isinstance(t.ops[0], (ast.Gt, ast.GtE, ast.Lt, ast.LtE))):
+            return None
+        l, r = t.left.id, t.comparators[0].id
+        if {l, r} != {x, y}:
+            return None
+        vx, vy = env.get(x), env.get(y)
+        if not isinstance(vx, Rat) or not isinstance(vy, Rat):
+            return None
+        # after the statement: is `l` the smaller one?
+        gt = isinstance(t.ops[0], (ast.Gt, ast.GtE))
+        small, big = (l, r) if gt else (r, l)
+        return {small: minmax("min", [vx, vy]), big: minmax("max", [vx, vy])}
 
     def exec_for(self, st: ast.For, conds, env, ctx):
         """Accumulation loops: `for x in it: acc += f(x)` (one or more accumulators, optional filter `if`)."""
@@ -994,6 +1026,10 @@ class Evaluator:
             a = b.single_atom()
             if a is not None:
                 # methods of self
+                if a == ("sym", "self") and attr in self.attr_alias:
+                    alts = self.ev(ast.parse(self.attr_alias[attr], mode="eval").body, {"self": b}, ctx)
+                    if len(alts) == 1 and not alts[0][0]:
+                        return alts[0][1]
                 if a == ("sym", "self") and ctx.f.cls is not None:
                     f = self.model.find_method(ctx.selfcls or ctx.f.cls, attr)
                     if f is not None and not f.is_property:
